@@ -113,8 +113,9 @@ def lawJudge (op : String) (args : List Sexp) (impl : Sexp) : Bool × String :=
     if !ok ex (decide (0 < weight)) then (false, "law:exists-all-inputs-is-satisfiability")
     else if !ok fa (decide (weight = 2 ^ decNat deg)) then (false, "law:forall-all-inputs-is-validity")
     else (ok de (decide (weight % 2 = 1)), "law:derivative-by-all-inputs-is-parity-of-weight")
-  | "law.forall.many", list [atom "L", cls, isOr, keep, ins, v0, v1]
-  | "law.exists.many", list [atom "L", cls, isOr, keep, ins, v0, v1] =>
+  | "law.forall.many", list [atom "L", cls, isOr, keep, ins, v0, v1, foreign]
+  | "law.exists.many", list [atom "L", cls, isOr, keep, ins, v0, v1, foreign]
+  | "law.deriv.many", list [atom "L", cls, isOr, keep, ins, v0, v1, foreign] =>
     -- C06 on a wide disjunction / conjunction of 12 literals with 11 of them eliminated: what is left
     -- is a function of the kept variable, computed here from the literal's polarity
     let lits := (decClauses cls).head?.getD []
@@ -124,7 +125,13 @@ def lawJudge (op : String) (args : List Sexp) (impl : Sexp) : Bool × String :=
     -- the other literals can be made all false (disjunction) / all true (conjunction) or not
     let value (b : Bool) : Bool :=
       let litv := b == pol
-      if op == "law.forall.many" then (if disj then litv else false) else (if disj then true else litv)
+      if op == "law.forall.many" then (if disj then litv else false)
+      else if op == "law.exists.many" then (if disj then true else litv)
+      -- C07: the derivative is the parity over the assignments of the eliminated inputs; one input the
+      -- function does not mention makes it the constant false (`C07.*_foreign`); otherwise all
+      -- assignments but one agree, so the parity is that of the single exceptional assignment
+      else if decBool foreign then false
+      else (if disj then !litv else litv)
     if !((decNames ins).all (· == k)) then (false, "law:eliminated-inputs-removed")
     else (decBool v0 == value false && decBool v1 == value true, "law:many-eliminated-inputs")
   | "law.weight", list [atom "L", da, wa, wna, wb, wand, wor, n, wwo, wnwo] =>
